@@ -57,20 +57,26 @@ func (a *api4) IDOf(p any) int {
 }
 
 func (a *api4) Call(ctx context.Context, xid int, verdict func(int, bool) bool, nilMatch bool, onReq func([]byte)) (int, bool, error) {
+	return a.Prepare(ctx, xid, verdict, nilMatch, onReq)()
+}
+
+func (a *api4) Prepare(ctx context.Context, xid int, verdict func(int, bool) bool, nilMatch bool, onReq func([]byte)) func() (int, bool, error) {
 	req, err := dhcpv4.New(dhcpv4.WithTransactionID(xid4(xid)), dhcpv4.WithHwAddr(mac), dhcpv4.WithMessageType(dhcpv4.MessageTypeDiscover))
 	if err != nil {
-		return 0, false, err
+		panic(err)
 	}
 	onReq(req.ToBytes())
 	var m nclient4.Matcher
 	if !nilMatch {
 		m = func(p *dhcpv4.DHCPv4) bool { return verdict(a.IDOf(p), p == nil) }
 	}
-	resp, err := a.c.SendAndRead(ctx, a.dest, req, m)
-	if err != nil {
-		return 0, false, err
+	return func() (int, bool, error) {
+		resp, err := a.c.SendAndRead(ctx, a.dest, req, m)
+		if err != nil {
+			return 0, false, err
+		}
+		return a.IDOf(resp), resp == nil, nil
 	}
-	return a.IDOf(resp), resp == nil, nil
 }
 
 func (a *api4) Close() error { return a.c.Close() }
@@ -101,7 +107,14 @@ func (a *api4) Datagram(id, xid int, kind string) []byte {
 	case "wrongop":
 		p.OpCode = dhcpv4.OpcodeBootRequest
 	case "wronghw":
-		p.ClientHWAddr = otherMac
+		switch id % 3 {
+		case 0:
+			p.ClientHWAddr = otherMac
+		case 1:
+			p.ClientHWAddr = nil // hlen 0: still not this client's address
+		default:
+			p.ClientHWAddr = append(append(net.HardwareAddr{}, mac...), 0) // longer address with the client's as prefix
+		}
 	}
 	return p.ToBytes()
 }
@@ -141,9 +154,13 @@ func (a *api6) IDOf(p any) int {
 }
 
 func (a *api6) Call(ctx context.Context, xid int, verdict func(int, bool) bool, nilMatch bool, onReq func([]byte)) (int, bool, error) {
+	return a.Prepare(ctx, xid, verdict, nilMatch, onReq)()
+}
+
+func (a *api6) Prepare(ctx context.Context, xid int, verdict func(int, bool) bool, nilMatch bool, onReq func([]byte)) func() (int, bool, error) {
 	req, err := dhcpv6.NewMessage()
 	if err != nil {
-		return 0, false, err
+		panic(err)
 	}
 	req.MessageType = dhcpv6.MessageTypeSolicit
 	req.TransactionID = xid6(xid)
@@ -153,11 +170,13 @@ func (a *api6) Call(ctx context.Context, xid int, verdict func(int, bool) bool, 
 	if !nilMatch {
 		m = func(p *dhcpv6.Message) bool { return verdict(a.IDOf(p), p == nil) }
 	}
-	resp, err := a.c.SendAndRead(ctx, a.dest, req, m)
-	if err != nil {
-		return 0, false, err
+	return func() (int, bool, error) {
+		resp, err := a.c.SendAndRead(ctx, a.dest, req, m)
+		if err != nil {
+			return 0, false, err
+		}
+		return a.IDOf(resp), resp == nil, nil
 	}
-	return a.IDOf(resp), resp == nil, nil
 }
 
 func (a *api6) Close() error { return a.c.Close() }
